@@ -786,10 +786,12 @@ class spawn(SpawnBase):
             p.interact()
         '''
 
-        # Flush the buffer.
-        self.write_to_stdout(self.buffer)
+        # Flush the pending output. (self.buffer may have been trimmed to the
+        # search window by an earlier expect(); _before holds all of it.)
+        self.write_to_stdout(self._before.getvalue())
         self.stdout.flush()
         self._buffer = self.buffer_type()
+        self._before = self.buffer_type()
         mode = tty.tcgetattr(self.STDIN_FILENO)
         tty.setraw(self.STDIN_FILENO)
         if escape_character is not None and PY3:
